@@ -123,9 +123,14 @@ func (p *Project) ProcessDependencies(getDependencyManagement func(String, Strin
 	//  - a slice of keys of dependency management in deps that have been added to m;
 	//  - a slice containing dependency management to be imported.
 	addDepManagement := func(deps []Dependency, m map[DependencyKey]Dependency) (keys []DependencyKey, depImports []Dependency) {
+		// Within one project and its parents the first import of a key counts.
+		importKeys := make(map[DependencyKey]bool)
 		for _, dep := range deps {
 			if dep.Scope == "import" {
-				depImports = append(depImports, dep)
+				if dk := dep.Key(); !importKeys[dk] {
+					importKeys[dk] = true
+					depImports = append(depImports, dep)
+				}
 				continue
 			}
 			dk := dep.Key()
@@ -148,23 +153,21 @@ func (p *Project) ProcessDependencies(getDependencyManagement func(String, Strin
 	depManagement := make(map[DependencyKey]Dependency, len(p.DependencyManagement.Dependencies))
 	depManagementKeys, depManagementImports := addDepManagement(p.DependencyManagement.Dependencies, depManagement)
 	// Append dependency management imports.
-	depImportKeys := make(map[DependencyKey]bool, len(depManagementImports))
-	for _, dep := range depManagementImports {
-		dk := dep.Key()
-		if _, ok := depImportKeys[dk]; !ok {
-			depImportKeys[dk] = true
-		}
-	}
 	n := 0
-	imported := make(map[DependencyKey]bool)
+	// The same project may be imported at several versions.
+	type importKey struct {
+		DependencyKey
+		Version String
+	}
+	imported := make(map[importKey]bool)
 	for ; n < MaxImports && len(depManagementImports) > 0; n++ {
 		dep := depManagementImports[0]
 		depManagementImports = depManagementImports[1:]
-		dk := dep.Key()
-		if imported[dk] {
+		ik := importKey{dep.Key(), dep.Version}
+		if imported[ik] {
 			continue
 		}
-		imported[dk] = true
+		imported[ik] = true
 		if dep.Type != "pom" {
 			continue
 		}
